@@ -290,6 +290,7 @@ proof fn witness_offset_cell_name() { assert(offset_small((1i64, -1i64))); }
 //   ['$'] LETTERS ['$'] DIGITS        (p = 1 iff the column is absolute, m = 1 iff the row is absolute)
 // and its translation by (dr, dc) is the same shape where an absolute component keeps its characters and a relative component is
 // re-spelled for the moved coordinate (column letters = bijective base-26 of col+1, row = decimal of row+1 without leading zero).
+#[verifier::opaque]
 pub open spec fn single_ref(sb: Seq<u8>, p: int, nl: int, m: int, nd: int) -> bool {
     0 <= p <= 1 && 1 <= nl <= 3 && 0 <= m <= 1 && 1 <= nd <= 7 && sb.len() == p + nl + m + nd
     && (p == 1 ==> sb[0] == 0x24)
@@ -301,6 +302,7 @@ pub open spec fn single_ref(sb: Seq<u8>, p: int, nl: int, m: int, nd: int) -> bo
 pub open spec fn single_row(sb: Seq<u8>, p: int, nl: int, m: int) -> int { dec10(sb.subrange(p + nl + m, sb.len() as int)) - 1 }
 pub open spec fn single_col(sb: Seq<u8>, p: int, nl: int) -> int { b26(sb.subrange(p, p + nl)) - 1 }
 /// `ob` is the translation of the single-reference formula `sb` by (dr, dc); nlo = number of letters of the translated name
+#[verifier::opaque]
 pub open spec fn single_translated(ob: Seq<u8>, nlo: int, sb: Seq<u8>, p: int, nl: int, m: int, dr: int, dc: int) -> bool {
     let lo = ob.subrange(p, p + nlo);
     let dg = ob.subrange(p + nlo + m, ob.len() as int);
@@ -318,6 +320,12 @@ pub open spec fn single_in_sheet(sb: Seq<u8>, p: int, nl: int, m: int, dr: int, 
 }
 
 // ---- facts about a single-reference formula (pure sequence reasoning; the code is not mentioned)
+proof fn lemma_single_bounds(sb: Seq<u8>, p: int, nl: int, m: int, nd: int)
+    requires single_ref(sb, p, nl, m, nd),
+    ensures 0 <= p <= 1, 1 <= nl <= 3, 0 <= m <= 1, 1 <= nd <= 7, sb.len() == p + nl + m + nd,
+{
+    reveal(single_ref);
+}
 proof fn lemma_single_char_class(sb: Seq<u8>, p: int, nl: int, m: int, nd: int, j: int)
     requires single_ref(sb, p, nl, m, nd), 0 <= j < sb.len(),
     ensures
@@ -326,8 +334,13 @@ proof fn lemma_single_char_class(sb: Seq<u8>, p: int, nl: int, m: int, nd: int, 
         j == p + nl && m == 1 ==> sb[j] == 0x24,
         j >= p + nl + m ==> is_digit(sb[j]),
 {
+    reveal(single_ref);
     if p <= j < p + nl { assert(is_upper(sb.subrange(p, p + nl)[j - p])); }
     if j >= p + nl + m { assert(is_digit(sb.subrange(p + nl + m, sb.len() as int)[j - (p + nl + m)])); }
+}
+/// `v` is nlo upper-case letters followed by at least one digit
+pub open spec fn has_split(v: Seq<u8>, nlo: int) -> bool {
+    1 <= nlo <= 3 && nlo < v.len() && all_upper(v.subrange(0, nlo)) && all_digits(v.subrange(nlo, v.len() as int))
 }
 pub open spec fn alpha_c(c: char) -> bool { ('A' <= c && c <= 'Z') || ('a' <= c && c <= 'z') }
 pub open spec fn digit_c(c: char) -> bool { '0' <= c && c <= '9' }
@@ -349,6 +362,7 @@ proof fn lemma_parse_positions(nm: Seq<char>, p: int, nl: int, m: int, nd: int, 
     requires all_ascii(nm), single_ref(lowb(nm), p, nl, m, nd), parse_stops(nm, abs_col, col_end, abs_row, row_end),
     ensures abs_col == (p == 1), col_end == p + nl, abs_row == (m == 1), row_end == nm.len(),
 {
+    reveal(single_ref);
     let sb = lowb(nm);
     assert forall|j: int| 0 <= j < nm.len() implies
         (j < p ==> nm[j] == '$') && (p <= j < p + nl ==> alpha_c(nm[j]) && nm[j] != '$')
@@ -369,6 +383,7 @@ proof fn lemma_single_plain(nm: Seq<char>, p: int, nl: int, m: int, nd: int, a1:
     requires all_ascii(nm), single_ref(lowb(nm), p, nl, m, nd), a1 == nm.subrange(p, p + nl) + nm.subrange(p + nl + m, nm.len() as int),
     ensures plain_ref(a1, nl), ref_row(a1, nl) == single_row(lowb(nm), p, nl, m), ref_col(a1, nl) == single_col(lowb(nm), p, nl),
 {
+    reveal(single_ref);
     let sb = lowb(nm);
     let n = nm.len() as int;
     assert forall|i: int| 0 <= i < a1.len() implies is_ascii_c(#[trigger] a1[i]) by {
@@ -378,6 +393,28 @@ proof fn lemma_single_plain(nm: Seq<char>, p: int, nl: int, m: int, nd: int, a1:
     assert(lowb(a1).subrange(nl, a1.len() as int) =~= sb.subrange(p + nl + m, n));
     assert forall|i: int| 0 <= i < nl implies is_letter(#[trigger] sb.subrange(p, p + nl)[i]) by { assert(is_upper(sb.subrange(p, p + nl)[i])); }
 }
+proof fn lemma_sub_ascii(x: Seq<char>, i: int, j: int)
+    requires all_ascii(x), 0 <= i <= j <= x.len(),
+    ensures all_ascii(x.subrange(i, j)),
+{
+    assert forall|k: int| 0 <= k < j - i implies is_ascii_c(#[trigger] x.subrange(i, j)[k]) by { assert(is_ascii_c(x[i + k])); }
+}
+proof fn lemma_concat_ascii(x: Seq<char>, y: Seq<char>)
+    requires all_ascii(x), all_ascii(y),
+    ensures all_ascii(x + y),
+{
+    assert forall|k: int| 0 <= k < (x + y).len() implies is_ascii_c(#[trigger] (x + y)[k]) by {
+        if k < x.len() { assert(is_ascii_c(x[k])); } else { assert(is_ascii_c(y[k - x.len()])); }
+    }
+}
+proof fn lemma_concat_sub(x: Seq<u8>, y: Seq<u8>, i: int, j: int)
+    requires 0 <= i <= x.len(), 0 <= j <= y.len(),
+    ensures (x + y).subrange(i, x.len() as int) == x.subrange(i, x.len() as int),
+        (x + y).subrange(x.len() + j, (x + y).len() as int) == y.subrange(j, y.len() as int),
+{
+    assert((x + y).subrange(i, x.len() as int) =~= x.subrange(i, x.len() as int));
+    assert((x + y).subrange(x.len() + j, (x + y).len() as int) =~= y.subrange(j, y.len() as int));
+}
 /// putting the pieces together: `ob` = (kept `$`+letters | moved letters) ++ (kept `$`+digits | moved digits) IS the translation
 proof fn lemma_assemble(sb: Seq<u8>, p: int, nl: int, m: int, nd: int, cn: Seq<u8>, nlo: int, dr: int, dc: int, ob: Seq<u8>)
     requires
@@ -386,29 +423,95 @@ proof fn lemma_assemble(sb: Seq<u8>, p: int, nl: int, m: int, nd: int, cn: Seq<u
         ob == (if p == 1 { sb.subrange(0, 1 + nl) } else { cn.subrange(0, nlo) }) + (if m == 1 { sb.subrange(p + nl, sb.len() as int) } else { cn.subrange(nlo, cn.len() as int) }),
     ensures single_translated(ob, if p == 1 { nl } else { nlo }, sb, p, nl, m, dr, dc),
 {
+    reveal(single_ref); reveal(single_translated);
     let n = sb.len() as int;
     let nlo2 = if p == 1 { nl } else { nlo };
     let first = if p == 1 { sb.subrange(0, 1 + nl) } else { cn.subrange(0, nlo) };
     let second = if m == 1 { sb.subrange(p + nl, n) } else { cn.subrange(nlo, cn.len() as int) };
     assert(first.len() == p + nlo2);
+    assert(second.len() >= m + 1);
+    lemma_concat_sub(first, second, p, m);
     let lo = ob.subrange(p, p + nlo2);
     let dg = ob.subrange(p + nlo2 + m, ob.len() as int);
+    assert(lo == first.subrange(p, first.len() as int));
+    assert(dg == second.subrange(m, second.len() as int));
     if p == 1 {
-        assert(ob[0] == sb[0]);
-        assert(lo =~= sb.subrange(p, p + nl));
+        assert(ob[0] == first[0]);
+        assert(first[0] == sb[0]);
+        assert(first.subrange(1, first.len() as int) =~= sb.subrange(1, 1 + nl));
     } else {
-        assert(lo =~= cn.subrange(0, nlo));
+        assert(first.subrange(0, first.len() as int) =~= first);
     }
     if m == 1 {
         assert(ob[p + nlo2] == second[0]);
         assert(second[0] == sb[p + nl]);
-        assert(dg =~= sb.subrange(p + nl + m, n));
+        assert(second.subrange(1, second.len() as int) =~= sb.subrange(p + nl + 1, n));
     } else {
-        assert(dg =~= cn.subrange(nlo, cn.len() as int));
+        assert(second.subrange(0, second.len() as int) =~= second);
         assert(dg[0] == cn[nlo]);
     }
 }
+/// the same on chars: what offset_cell_reference returns for a single reference is its translation
+proof fn lemma_reference_translated(nm: Seq<char>, p: int, nl: int, m: int, nd: int, cn: Seq<u8>, nlo: int, dr: int, dc: int, res: Seq<char>)
+    requires
+        all_ascii(nm), single_ref(lowb(nm), p, nl, m, nd), bytes_ascii(cn),
+        name_of(cn, nlo, single_row(lowb(nm), p, nl, m) + (if m == 1 { 0 } else { dr }), single_col(lowb(nm), p, nl) + (if p == 1 { 0 } else { dc })),
+        res == (if p == 1 { nm.subrange(0, 1 + nl) } else { as_chars(cn).subrange(0, nlo) })
+            + (if m == 1 { nm.subrange(p + nl, nm.len() as int) } else { as_chars(cn).subrange(nlo, cn.len() as int) }),
+    ensures single_translated(lowb(res), if p == 1 { nl } else { nlo }, lowb(nm), p, nl, m, dr, dc),
+{
+    reveal(single_ref);
+    let sb = lowb(nm);
+    lemma_ascii_roundtrip(cn);
+    let first = if p == 1 { nm.subrange(0, 1 + nl) } else { as_chars(cn).subrange(0, nlo) };
+    let second = if m == 1 { nm.subrange(p + nl, nm.len() as int) } else { as_chars(cn).subrange(nlo, cn.len() as int) };
+    let fb = if p == 1 { sb.subrange(0, 1 + nl) } else { cn.subrange(0, nlo) };
+    let sb2 = if m == 1 { sb.subrange(p + nl, sb.len() as int) } else { cn.subrange(nlo, cn.len() as int) };
+    assert(lowb(first) =~= fb);
+    assert(lowb(second) =~= sb2);
+    assert(lowb(res) =~= fb + sb2);
+    lemma_assemble(sb, p, nl, m, nd, cn, nlo, dr, dc, lowb(res));
+}
+/// the letters/digits split of a name is unique
+proof fn lemma_split_unique(cn: Seq<u8>, x: int, y: int)
+    requires has_split(cn, x), has_split(cn, y),
+    ensures x == y,
+{
+    if x < y { assert(is_upper(cn.subrange(0, y)[x])); assert(is_digit(cn.subrange(x, cn.len() as int)[0])); }
+    if x > y { assert(is_upper(cn.subrange(0, x)[y])); assert(is_digit(cn.subrange(y, cn.len() as int)[0])); }
+}
 
+proof fn witness_offset_cell_reference() { assert(offset_small((-2i64, 5i64))); }
+
+// ---- a call of a function whose name has the shape LETTERS DIGITS LETTERS, e.g. DEC2BIN(): "function names ... are reproduced unchanged"
+/// sb = L1 (a upper-case letters) ++ D (b digits) ++ L2 (c upper-case letters) ++ "()"
+pub open spec fn call_shape(sb: Seq<u8>, a: int, b: int, c: int) -> bool {
+    1 <= a <= 6 && 1 <= b <= 9 && 1 <= c <= 6 && sb.len() == a + b + c + 2
+    && all_upper(sb.subrange(0, a)) && all_digits(sb.subrange(a, a + b)) && all_upper(sb.subrange(a + b, a + b + c))
+    && sb[a + b + c] == 0x28 && sb[a + b + c + 1] == 0x29
+}
+proof fn lemma_call_char_class(sb: Seq<u8>, a: int, b: int, c: int, j: int)
+    requires call_shape(sb, a, b, c), 0 <= j < sb.len(),
+    ensures
+        j < a ==> is_upper(sb[j]),
+        a <= j < a + b ==> is_digit(sb[j]),
+        a + b <= j < a + b + c ==> is_upper(sb[j]),
+        j == a + b + c ==> sb[j] == 0x28,
+        j == a + b + c + 1 ==> sb[j] == 0x29,
+{
+    if j < a { assert(is_upper(sb.subrange(0, a)[j])); }
+    if a <= j < a + b { assert(is_digit(sb.subrange(a, a + b)[j - a])); }
+    if a + b <= j < a + b + c { assert(is_upper(sb.subrange(a + b, a + b + c)[j - (a + b)])); }
+}
+/// a name character of the scanner: letters, digits, `$`, `_`, `.` and everything outside ASCII
+pub open spec fn name_c(c: char) -> bool { alpha_c(c) || digit_c(c) || c == '$' || c == '_' || c == '.' || !is_ascii_c(c) }
+/// a string literal: `"`, any chars but `"` (ASCII or not), `"`
+pub open spec fn string_literal(s: Seq<char>) -> bool {
+    s.len() >= 2 && s[0] == '"' && s[s.len() - 1] == '"' && forall|i: int| 0 < i < s.len() - 1 ==> #[trigger] s[i] != '"'
+}
+
+// (child modules: smaller proof context; the inner one sees the private function of the outer one)
+pub mod ocr { use super::*;
 //@@ fn src/xlsx/mod.rs offset_cell_reference props=C15,C06 ret=r
 //@@ sig
     requires
@@ -425,6 +528,7 @@ proof fn lemma_assemble(sb: Seq<u8>, p: int, nl: int, m: int, nd: int, cn: Seq<u
 //@@ body
     let ghost nm = name@;
     let ghost sb = lowb(name@);
+    let ghost offset0 = offset;
 //@@ loop 0
         invariant
             nm == name@, col_start <= col_end <= name.len(),
@@ -461,6 +565,7 @@ proof fn lemma_assemble(sb: Seq<u8>, p: int, nl: int, m: int, nd: int, cn: Seq<u
             && single_in_sheet(sb, p, nl, m, offset0.0 as int, offset0.1 as int) implies
             plain_ref(a1@, nl) && ref_row(a1@, nl) == single_row(sb, p, nl, m) && ref_col(a1@, nl) == single_col(sb, p, nl)
             && 0 <= ref_row(a1@, nl) + offset.0 <= 0xFFFF_FFFF && 0 <= ref_col(a1@, nl) + offset.1 < 16384 by {
+            lemma_single_bounds(sb, p, nl, m, nd);
             lemma_single_plain(nm, p, nl, m, nd, a1@);
             lemma_a1_small_range(lowb(a1@), nl);
         }
@@ -479,26 +584,24 @@ proof fn lemma_assemble(sb: Seq<u8>, p: int, nl: int, m: int, nd: int, cn: Seq<u
         proof { assert(as_chars(cn.subrange(0, it.index@ + 1)) =~= as_chars(cn.subrange(0, it.index@ as int)).push(c as char)); }
 //@@ before /let mut digits = 0/
     proof { assert(cn.subrange(0, cn.len() as int) =~= cn); }
-    let ghost nlo0 = choose|nlo: int| exists|row: int, col: int| name_of(cn, nlo, row, col);
-    let ghost named = exists|nlo: int, row: int, col: int| name_of(cn, nlo, row, col);
+    let ghost nlo0 = choose|nlo: int| has_split(cn, nlo);
+    let ghost named = exists|nlo: int| has_split(cn, nlo);
 //@@ loop 3
         invariant
             moved@ == as_chars(cn), digits <= moved.len(),
-            named == (exists|nlo: int, row: int, col: int| name_of(cn, nlo, row, col)),
-            named ==> (exists|row: int, col: int| name_of(cn, nlo0, row, col)) && digits <= nlo0,
+            named == (exists|nlo: int| has_split(cn, nlo)),
+            named ==> has_split(cn, nlo0) && digits <= nlo0,
             forall|i: int| 0 <= i < digits ==> alpha_c(#[trigger] moved@[i]),
         decreases moved.len() - digits,
 //@@ before /digits \+= 1/
         proof {
             if named {
-                let (row, col) = choose|row: int, col: int| name_of(cn, nlo0, row, col);
                 if digits == nlo0 { assert(is_digit(cn.subrange(nlo0, cn.len() as int)[0])); assert(moved@[digits as int] == cn[nlo0] as char); assert(false); }
             }
         }
 //@@ before /Ok\(res\)/
     proof {
         if named {
-            let (row, col) = choose|row: int, col: int| name_of(cn, nlo0, row, col);
             if digits < nlo0 { assert(is_upper(cn.subrange(0, nlo0)[digits as int])); assert(moved@[digits as int] == cn[digits as int] as char); assert(false); }
             assert(digits == nlo0);
         }
@@ -506,14 +609,9 @@ proof fn lemma_assemble(sb: Seq<u8>, p: int, nl: int, m: int, nd: int, cn: Seq<u
         let second = if abs_row { nm.subrange(col_end as int, nm.len() as int) } else { moved@.subrange(digits as int, moved@.len() as int) };
         assert(res@ =~= first + second);
         if all_ascii(nm) {
-            assert forall|i: int| 0 <= i < res@.len() implies is_ascii_c(#[trigger] res@[i]) by {
-                if i < first.len() {
-                    if abs_col { assert(is_ascii_c(nm[i])); } else { assert(is_ascii_c(as_chars(cn)[i])); }
-                } else {
-                    let j = i - first.len();
-                    if abs_row { assert(is_ascii_c(nm[col_end + j])); } else { assert(is_ascii_c(as_chars(cn)[digits + j])); }
-                }
-            }
+            lemma_sub_ascii(nm, 0, col_end as int); lemma_sub_ascii(nm, col_end as int, nm.len() as int);
+            lemma_sub_ascii(as_chars(cn), 0, digits as int); lemma_sub_ascii(as_chars(cn), digits as int, cn.len() as int);
+            lemma_concat_ascii(first, second);
         }
         assert forall|p: int, nl: int, m: int, nd: int| all_ascii(nm) && #[trigger] single_ref(sb, p, nl, m, nd)
             && single_in_sheet(sb, p, nl, m, offset0.0 as int, offset0.1 as int) implies
@@ -523,53 +621,16 @@ proof fn lemma_assemble(sb: Seq<u8>, p: int, nl: int, m: int, nd: int, cn: Seq<u
             assert(plain_ref(a1@, nl));
             assert(is_name_of(cn, rr, cc));
             let nlo = choose|nlo: int| name_of(cn, nlo, rr, cc);
-            assert(named);
-            // the letters/digits split of a name is unique
-            assert(nlo == nlo0) by {
-                let (row, col) = choose|row: int, col: int| name_of(cn, nlo0, row, col);
-                if nlo < nlo0 { assert(is_upper(cn.subrange(0, nlo0)[nlo])); assert(is_digit(cn.subrange(nlo, cn.len() as int)[0])); }
-                if nlo > nlo0 { assert(is_upper(cn.subrange(0, nlo)[nlo0])); assert(is_digit(cn.subrange(nlo0, cn.len() as int)[0])); }
-            }
-            let ob = lowb(res@);
-            let fb = if p == 1 { sb.subrange(0, 1 + nl) } else { cn.subrange(0, nlo) };
-            let sb2 = if m == 1 { sb.subrange(p + nl, sb.len() as int) } else { cn.subrange(nlo, cn.len() as int) };
-            assert(lowb(first) =~= fb);
-            assert(lowb(second) =~= sb2);
-            assert(ob =~= fb + sb2);
-            lemma_assemble(sb, p, nl, m, nd, cn, nlo, offset0.0 as int, offset0.1 as int, ob);
-            assert(single_translated(ob, if p == 1 { nl } else { nlo }, sb, p, nl, m, offset0.0 as int, offset0.1 as int));
+            assert(has_split(cn, nlo));
+            lemma_split_unique(cn, nlo, nlo0);
+            assert(abs_col == (p == 1) && col_end == p + nl && abs_row == (m == 1) && digits == nlo);
+            assert(first == (if p == 1 { nm.subrange(0, 1 + nl) } else { as_chars(cn).subrange(0, nlo) }));
+            assert(second == (if m == 1 { nm.subrange(p + nl, nm.len() as int) } else { as_chars(cn).subrange(nlo, cn.len() as int) }));
+            lemma_reference_translated(nm, p, nl, m, nd, cn, nlo, offset0.0 as int, offset0.1 as int, res@);
         }
     }
 //@@ end
-proof fn witness_offset_cell_reference() { assert(offset_small((-2i64, 5i64))); }
-
-// ---- a call of a function whose name has the shape LETTERS DIGITS LETTERS, e.g. DEC2BIN(): "function names ... are reproduced unchanged"
-/// sb = L1 (a upper-case letters) ++ D (b digits) ++ L2 (c upper-case letters) ++ "()"
-pub open spec fn call_shape(sb: Seq<u8>, a: int, b: int, c: int) -> bool {
-    1 <= a <= 6 && 1 <= b <= 9 && 1 <= c <= 6 && sb.len() == a + b + c + 2
-    && all_upper(sb.subrange(0, a)) && all_digits(sb.subrange(a, a + b)) && all_upper(sb.subrange(a + b, a + b + c))
-    && sb[a + b + c] == 0x28 && sb[a + b + c + 1] == 0x29
-}
-proof fn lemma_call_char_class(sb: Seq<u8>, a: int, b: int, c: int, j: int)
-    requires call_shape(sb, a, b, c), 0 <= j < sb.len(),
-    ensures
-        j < a ==> is_upper(sb[j]),
-        a <= j < a + b ==> is_digit(sb[j]),
-        a + b <= j < a + b + c ==> is_upper(sb[j]),
-        j == a + b + c ==> sb[j] == 0x28,
-        j == a + b + c + 1 ==> sb[j] == 0x29,
-{
-    if j < a { assert(is_upper(sb.subrange(0, a)[j])); }
-    if a <= j < a + b { assert(is_digit(sb.subrange(a, a + b)[j - a])); }
-    if a + b <= j < a + b + c { assert(is_upper(sb.subrange(a + b, a + b + c)[j - (a + b)])); }
-}
-/// a name character of the scanner: letters, digits, `$`, `_`, `.` and everything outside ASCII
-pub open spec fn name_c(c: char) -> bool { alpha_c(c) || digit_c(c) || c == '$' || c == '_' || c == '.' || !is_ascii_c(c) }
-/// a string literal: `"`, any chars but `"` (ASCII or not), `"`
-pub open spec fn string_literal(s: Seq<char>) -> bool {
-    s.len() >= 2 && s[0] == '"' && s[s.len() - 1] == '"' && forall|i: int| 0 < i < s.len() - 1 ==> #[trigger] s[i] != '"'
-}
-
+pub mod rcn { use super::*;
 //@@ fn src/xlsx/mod.rs replace_cell_names props=C15,C06 ret=r
 //@@ sig
     requires
@@ -625,6 +686,7 @@ pub open spec fn string_literal(s: Seq<char>) -> bool {
             assert(s@.subrange(0, k) =~= s@.subrange(0, k - 1).push(c));
             if all_ascii(s@) { assert(is_ascii_c(s@[k - 1])); assert(sb[k - 1] == c as u8); }
             assert forall|p: int, nl: int, m: int, nd: int| all_ascii(s@) && #[trigger] single_ref(sb, p, nl, m, nd) implies name_c(c) by {
+                lemma_single_bounds(sb, p, nl, m, nd);
                 lemma_single_char_class(sb, p, nl, m, nd, k - 1);
             }
             assert forall|a: int, b: int, c2: int| all_ascii(s@) && #[trigger] call_shape(sb, a, b, c2) implies
@@ -665,6 +727,8 @@ pub open spec fn string_literal(s: Seq<char>) -> bool {
     let ghost res2 = res@;
     let ghost name2 = name@;
 //@@ end
+} // mod rcn
+} // mod ocr
 proof fn witness_replace_cell_names() { assert(offset_small((0i64, 3i64))); }
 /// the function-call shape is inhabited: "DEC2BIN()"
 proof fn witness_call_shape()
@@ -680,6 +744,7 @@ proof fn witness_single_ref()
     ensures single_ref(seq![0x24u8, 0x42, 0x24, 0x37], 1, 1, 1, 1), single_ref(seq![0x41u8, 0x42, 0x31, 0x32], 0, 2, 0, 2),
         single_row(seq![0x41u8, 0x42, 0x31, 0x32], 0, 2, 0) == 11, single_col(seq![0x41u8, 0x42, 0x31, 0x32], 0, 2) == 27,
 {
+    reveal(single_ref);
     let a = seq![0x24u8, 0x42, 0x24, 0x37];
     assert(a.subrange(1, 2) =~= seq![0x42u8]);
     assert(a.subrange(3, 4) =~= seq![0x37u8]);
